@@ -426,7 +426,14 @@ Fixpoint check_raw (D : decls) (t : ty) (v : rval) {struct v} : bool :=
   | TOpaque => true
   | _ =>
     match v with
-    | RInt _ => match t with TInt | TChar => true | _ => false end
+    | RInt z =>
+        match t with
+        | TInt | TChar => true
+        (* the unit value made by HOST code is the integer 0 (vm/src/api/mod.rs:818
+           `impl Pushable for ()` pushes ValueRepr::Int(0)); Gluon code builds the empty record *)
+        | TRcd [] => Z.eqb z 0
+        | _ => false
+        end
     | RByte _ => match t with TByte => true | _ => false end
     | RFloat _ => match t with TFloat => true | _ => false end
     | RStr _ => match t with TStr => true | _ => false end
